@@ -322,6 +322,8 @@ class Unit:
         if unit[-1] == 'L':
             prefix_value = Unit.convert_prefix_to_multiplier(unit[:-1])
             result = value * prefix_value / Unit.convert_prefix_to_multiplier(config.volume_storage_unit[:-1])
+        elif unit[-3:] != 'mol':
+            raise ValueError("Invalid unit.")
         else:  # moles
             prefix_value = Unit.convert_prefix_to_multiplier(unit[:-3])
             result = value * prefix_value / Unit.convert_prefix_to_multiplier(config.moles_storage_unit[:-3])
